@@ -85,7 +85,7 @@ def _attr(x, name, *a):
 
 TEMPLATES = ["x", "x,c", "c,x", "x,1", "x,0", "x,2", "x,-1", "x,(1,)", "x,shape", "shape,x", "x,idx", "x,0.5", "0.5,x", "x,c,c", "c,x,c", "c,c,x",
              "cond,x,c", "cond,c,x", "x,1,0", "x,0,1", "sq", "psd", "sq,c", "c,sq", "psd,c", "x,x", "2,x", "x,k=1", "x,None,1", "x,-0.5,0.8",
-             "x,[1,2]", "1.5,x", "x,2.0", "x,n3", "x,(0,1)"]
+             "x,[1,2]", "1.5,x", "x,2.0", "x,n3", "x,(0,1)", "c0,x", "x,c0", "c0,x,c"]
 
 
 def build_args(tname, shape, vseed):
@@ -102,7 +102,8 @@ def build_args(tname, shape, vseed):
     size = int(onp.prod(shape)) if shape else 1
     bits = (onp.arange(size) % 2 == 0).reshape(shape)
     idx = onp.array([0, size - 1, 0]) % max(1, (shape[0] if shape else 1))
-    for a in (c1, c2, bits, idx):
+    c0 = onp.where(bits, 0.0, c1)  # a constant partner with exact zeros (values at which piecewise definitions switch to another argument)
+    for a in (c1, c2, bits, idx, c0):
         if isinstance(a, onp.ndarray):
             a.flags.writeable = False
     T = {
@@ -114,6 +115,7 @@ def build_args(tname, shape, vseed):
         "sq,c": lambda x: (x, c1), "c,sq": lambda x: (c1, x), "psd,c": lambda x: (x, c1), "x,x": lambda x: (x, x), "2,x": lambda x: (2, x),
         "x,k=1": lambda x: (x, 1), "x,None,1": lambda x: (x, None, 1), "x,-0.5,0.8": lambda x: (x, 0.6, 1.4), "x,[1,2]": lambda x: (x, [1, 2]),
         "1.5,x": lambda x: (1.5, x), "x,2.0": lambda x: (x, 2.0), "x,n3": lambda x: (x, 3), "x,(0,1)": lambda x: (x, (0, 1)),
+        "c0,x": lambda x: (c0, x), "x,c0": lambda x: (x, c0), "c0,x,c": lambda x: (c0, x, c2),
     }
     return T[tname], x0
 
@@ -242,7 +244,7 @@ def sweep_body(c):
             return Outcome("numpy_rejects", detail=f"{type(e).__name__}: {e}"[:100], sample=sample)
         if not abs(dv) > 1e-6:
             return Outcome("numpy_rejects", detail="output does not vary with the argument (not applicable)", sample=sample)
-        c.features.update(callable=label, template=tname)
+        c.features.update(callable=label, template=tname, x_ndim=int(onp.ndim(x0)))
         bucket = lambda k: f"C15|sweep|{label}|{k}"
         labels = ["applicable", "ns=" + (label.split(".")[0] if "." in label else ("method" if label.startswith("method:") else "numpy"))]
         # ---- reverse mode ----------------------------------------------------------------------------------------------------
